@@ -41,6 +41,13 @@ check("C35", "exploration", "bounded-exhaustive input enumeration on the real fu
       "Every text of <=3 (quick) / <=5 (thorough) blocks over 8 blocks (ASCII, sentence marks, newline, 2- and 4-byte characters, 25-byte and 24-byte runs so that gaps exceed the merge distance) x every occurrence list of <=2 ranges with endpoints from {0,1,3,len/2,len-1,len,len+2,usize::MAX} x window {0,1,4,80} x max {0,1,2}: slices non-empty, in bounds, on char boundaries, strictly increasing, non-overlapping, at most max, no panic.",
       "Harness is built with overflow checks on, so arithmetic overflow panics are visible. Uses verif_hooks::compute_snippet_slices.", "DESIGN.md §3 C35", "pure")
 
+check("C01", "exploration", "bounded-exhaustive history exploration on the real implementation against a reference model",
+      "Every op sequence up to the depth bound over {put short text, put chunked text, put binary, put with embedding, put binary without auto-tagging, update with new payload, metadata-only update, delete, commit, close+open, leak the handle and replay on open} is executed on a real Memvid in a worker subprocess, from a fresh file and from non-initial states (after a commit, after an automatic checkpoint, after WAL growth, with the instant index on); after every commit/open and at the end the frame table (ids, URIs, status, role, parent, supersede links, timestamps, exact content) must equal a Vec-of-frames reference model; between them frame_count is a prefix and next_frame_id counts every acknowledged insert. Histories are explored level by level; only non-redundant, non-violating histories are extended.",
+      "Update/delete of a frame that already has a pending update/delete in the same uncommitted batch is outside the alphabet (undefined by the API). Depth bounds: quick 2-3, thorough 3-5.", "DESIGN.md §3 C01", "hist")
+check("C06", "exploration", "bounded-exhaustive history exploration on the real implementation against a reference model",
+      "Same explorer as C01 with vacuum and doctor added to the alphabet; the invariants owned by this property: next_frame_id() sampled before each put/update equals the id the reference assigns, ids are dense in put order with chunk frames right after their parent, and (uri, role, content digest, timestamp) of an id never change once observed (for inactive frames, whose payload vacuum may reclaim, uri/role/timestamp).",
+      "Violations that belong to other properties (e.g. a failing commit) stop a history from being extended but are reported by their own check.", "DESIGN.md §3 C06", "hist")
+
 NOT_APPLICABLE = {}
 
 def main():
@@ -82,6 +89,8 @@ def main():
         "engines": [
             {"name": "pure", "path": "harness/src/p_*.rs", "serves_properties": [p for p, c in CHECKS.items() if c["engine"] == "pure"],
              "kind_free_text": "bounded-exhaustive enumeration of inputs of real pure functions, all 16 cores, per-case panic guard"},
+            {"name": "hist", "path": "harness/src/hist.rs, h_run.rs, h_*.rs", "serves_properties": [p for p, c in CHECKS.items() if c["engine"] == "hist"],
+             "kind_free_text": "level-wise exhaustive enumeration of op histories; each history runs on a real Memvid in a worker subprocess and is compared with a reference model"},
             {"name": "walmc", "path": "harness/src/s_wal.rs", "serves_properties": ["C05"],
              "kind_free_text": "explicit-state BFS over the real EmbeddedWal with exact state dedup; states reached by history re-execution"},
         ],
